@@ -76,7 +76,8 @@ def run(ctx):
     # (an exit that hands back the knees argument itself returns a subsequence of it, whatever its condition: C12 / C13 judge when)
     from .common import account_exits
     for q_ in ("postprocessing.filter_clusters", "postprocessing.filter_clusters_corners"):
-        account_exits(rc.func(q_), lambda r: isinstance(r.value, ast.Name) and r.value.id == "knees")
+        from .common import returned_expr as _rexpr
+        account_exits(rc.func(q_), lambda r, f_=rc.func(q_): isinstance(_rexpr(f_, r), ast.Name) and _rexpr(f_, r).id == "knees")
     for mode in c12.MODES:
         c12._filter_clusters(rc, mode)
     c12._corners(rc)
